@@ -18,6 +18,8 @@ def register(prop, J):
                     "of the property: client error equals the resource's error response field by field, HTTP status and error header, "
                     "failure status and message for plain errors / panics / nil entities, unmodified error objects, default and "
                     "overridden success statuses, server still usable",
-         level_note="per-key batch errors are part of C02's outcome generator; the concurrent sharing of error objects is exercised by C17",
+         level_note="per-key batch errors are part of C02's outcome generator; the concurrent sharing of error objects is exercised by C17; "
+                    "root-module run (errors-v1): its ErrorResponse has 4 fields (status, message, exceptionClass, stackTrace), the "
+                    "other 6 are not scripted there",
          technique="property-based testing (rapid) over generated bindings with a propagation-table oracle",
          design_ref="2/C08")
